@@ -1,6 +1,7 @@
 package checks
 
 import (
+	"encoding/json"
 	"fmt"
 	"runtime"
 	"strings"
@@ -11,7 +12,13 @@ import (
 )
 
 func init() {
-	registry["C02"] = checkDef{level: "model_checking", run: c02, replay: brokerReplayFunc}
+	registry["C02"] = checkDef{level: "model_checking", run: c02, replay: func(kind string, raw json.RawMessage) int {
+		if "c02insert" == kind {
+			fmt.Println("Ctrl+I findings are replayed by re-running ./run C02 quick; the failing size is in the artefact")
+			return 2
+		}
+		return brokerReplayFunc(kind, raw)
+	}}
 }
 
 // c02Profiles: lines entered before, between and during successive shells
@@ -138,6 +145,9 @@ func c02(r *ev.Result, tier string) {
 	r.Distinct += n
 	r.Traces += n
 	r.Set("payload_runs", n)
+	/* The Ctrl+I seam: the real Shell's insert enters the input channel as
+	exactly one entry, whatever its size. */
+	runTermSeam(r, "c02", 0, "c02insert")
 	r.Sample(12, map[string]any{"payload": "\x00\n", "writer_kind": 2, "history": "line start admit line line"})
 }
 
